@@ -2,11 +2,35 @@
   Model driver for C14 (line protocol, see harness/c14_main.c). Imports Model + Gen only.
   For `crc32 <align> <init> <hex>` it prints "<generic model over the Gen tables> <reference> <reference>",
   which must equal the harness line "<C generic> <C arch-optimised> <C public>".
+  For `sha256…` it prints "<model of sha256.c over the Gen constants, fed piece by piece> <FIPS reference of the
+  concatenation>", which must equal "<lzma_check_* digest> <lzma_sha256_* digest>".
 -/
 import XzVerif.Model.Proto
 import XzVerif.Model.Crc
+import XzVerif.Model.Sha256
+import XzVerif.Model.Check
 import XzVerif.Gen.C14
 open XzVerif XzVerif.Proto XzVerif.Crc
+
+def genK : List Sha256.W32 := Gen.C14.sha256K.map (BitVec.ofNat 32)
+def genInit : List Sha256.W32 := Gen.C14.sha256Init.map (BitVec.ofNat 32)
+
+def impl : Check.Impl :=
+  { crc32 := crc32Ref, crc64 := crc64Ref, shaK := genK, shaInit := genInit }
+
+/-- the harness fills the check state with 0xAA before `lzma_check_init` -/
+def state0 : Check.State :=
+  { buf := List.replicate 64 0xAA, crc32 := 0xAAAAAAAA#32, crc64 := 0xAAAAAAAAAAAAAAAA#64,
+    shaState := List.replicate 8 0xAAAAAAAA#32, shaSize := 0xAAAAAAAAAAAAAAAA }
+
+def shaLine (pieces : List (List UInt8)) : String :=
+  let viaApi := Check.run impl 10 state0 pieces
+  let direct := Sha256.sha256C genK genInit (List.replicate 64 0x55) pieces
+  let ref := Sha256.sha256 pieces.flatten
+  -- column 1: dispatch model; column 2: the FIPS reference, but only if the direct model of sha256.c agrees with it
+  s!"{hexOfBytes viaApi} {if direct == ref then hexOfBytes ref else "model-of-sha256.c-differs-from-FIPS:" ++ hexOfBytes direct}"
+
+def joinNat (l : List Nat) : String := ",".intercalate (l.map toString)
 
 def step (_ : Unit) (ws : List String) : Unit × String :=
   match ws with
@@ -32,6 +56,34 @@ def step (_ : Unit) (ws : List String) : Unit × String :=
     match ini.toNat?, pieces.mapM bytesOfHex with
     | some i, some ps => ((), s!"{(crc64Ref ps.flatten (BitVec.ofNat 64 i)).toNat}")
     | _, _ => ((), "bad-op")
+  | ["sha256", hx] =>
+    match bytesOfHex hx with
+    | some bs => ((), shaLine [bs])
+    | none => ((), "bad-op")
+  | "sha256s" :: pieces =>
+    match pieces.mapM bytesOfHex with
+    | some ps => ((), shaLine ps)
+    | none => ((), "bad-op")
+  | "check" :: ids :: pieces =>
+    match ids.toNat?, pieces.mapM bytesOfHex with
+    | some id0, some ps =>
+      let id := id0 % 4294967296      -- the harness passes (unsigned int)id
+      -- sizes / supported flags come from the model (file-format.txt 2.1.1.2); the regenerated tables of check.c are
+      -- bridged to them by theorems in Props/C14.lean
+      let sup := Check.isSupported id
+      let size := Check.checkSize id
+      ((), s!"{size} {if sup then 1 else 0} {hexOfBytes (Check.run impl id state0 ps)}")
+    | _, _ => ((), "bad-op")
+  | ["small32", ini, hx] =>
+    match ini.toNat?, bytesOfHex hx with
+    | some i, some bs => ((), s!"{(crcSmall P32 bs (BitVec.ofNat 32 i)).toNat}")
+    | _, _ => ((), "bad-op")
+  | ["small64", ini, hx] =>
+    match ini.toNat?, bytesOfHex hx with
+    | some i, some bs => ((), s!"{(crcSmall P64 bs (BitVec.ofNat 64 i)).toNat}")
+    | _, _ => ((), "bad-op")
+  | ["smalltab32"] => ((), joinNat ((genTable P32 1).getD 0 []))
+  | ["smalltab64"] => ((), joinNat ((genTable P64 1).getD 0 []))
   | _ => ((), "bad-op")
 
 def main : IO Unit := runLoop step ()
